@@ -818,6 +818,17 @@ pub fn families(nmax: usize) -> Vec<(String, Vec<Op>)> {
         out.push((format!("big: {} barriers", n), (0..n).flat_map(|i| vec![free(&nm(i)), Op::Barrier]).chain([free("x"), free("y"), Op::Barrier, free("z")]).collect()));
         out.push((format!("big: {} thread-local systems", n), (0..n).map(|_| Op::Tl(SysSpec { name: String::new(), reads: vec![], writes: vec![], time: 3, deps: vec![] })).chain([free("x")]).collect()));
     }
+    // names of every length 1..80 bytes and around the powers of two up to 1024 (inline buffers, length prefixes):
+    // two conflicting systems and a dependent, so that the name is registered, looked up and printed
+    for n in (1..=80usize).chain([127, 128, 129, 255, 256, 257, 511, 512, 513, 1023, 1024, 1025]) {
+        let long: String = "abcdefghijklmnopqrstuvwxyz-/ .0123456789".chars().cycle().take(n).collect();
+        out.push((format!("name-length({} bytes)", n), vec![s(long.clone(), &[], &[0], 3, vec![]), s("y".into(), &[], &[0], 3, vec![]), s(String::new(), &[0], &[], 3, vec![long.clone()])]));
+        // the same length in 2-byte characters (n even) - a byte count, not a character count
+        if n % 2 == 0 && n <= 80 {
+            let wide: String = "éàüöß".chars().cycle().take(n / 2).collect();
+            out.push((format!("name-length({} bytes, 2-byte characters)", n), vec![s(wide.clone(), &[], &[0], 3, vec![]), s("y".into(), &[], &[0], 3, vec![wide.clone()])]));
+        }
+    }
     // a stage of f groups in front of a barrier; behind it a heavy group, fillers and a light group at index g; then a
     // system that joins the light group for balance and also writes what front group x writes (stage indices that are
     // relative to the barrier in one place and absolute in another)
